@@ -20,6 +20,9 @@ def _calls(s):
     return [c for c in ast.walk(s) if isinstance(c, ast.Call)]
 
 
+REMOVERS = ('os.remove', 'os.unlink', 'os.rename', 'os.replace', 'os.rmdir', 'shutil.rmtree', 'shutil.move')   # the entry file is the lock: it must stay
+
+
 class Proto:
     '''Event extraction for one of the two mechanisms.'''
 
@@ -58,6 +61,8 @@ class Proto:
                 evs.append(Event('COMPUTE', s, src(c)))
             elif m == 'touch':
                 evs.append(Event('TOUCH', s))
+            elif name in REMOVERS or (m in ('unlink', 'rename', 'replace', 'rmdir') and isinstance(c.func, ast.Attribute) and isinstance(c.func.value, ast.Name) and c.func.value.id.startswith('cache')):
+                evs.append(Event('REMOVE', s, src(c)))
         if isinstance(s, ast.Expr) and isinstance(s.value, (ast.Yield, ast.YieldFrom)):
             evs.append(Event('YIELD', s, src(s.value.value) if s.value.value is not None else None))
         if isinstance(s, ast.Assign) and isinstance(s.value, ast.Call) and src(s.value.func) == 'log.RecordLog':
@@ -212,11 +217,13 @@ def check_protocol(model, rep, key, compute_pred, recursion):
                         recording = next(ev.data for ev in _events_of(p, rec[-1]) if ev.kind == 'LOGADD')
                 elif k == 'REPLAY':
                     replayed = True
+                elif k == 'REMOVE':
+                    fail('R18.8', 'entry-file-kept', e.node, f'`{e.data}` removes or renames a cache entry file: the file is the lock the callers synchronise on, so a process already waiting for it keeps the lock of an '
+                         'orphaned inode while a newcomer locks a fresh file - both compute concurrently and one result is lost')
                 elif k in ('return', 'YIELD'):
                     if load_ok and not load_failed and not computed and not replayed:
                         # a hit that is handed out without replaying the recorded log
-                        if not (recursion and k == 'return'):
-                            fail('R18.5', 'hit-replays', e.node, 'a cache hit is returned without replaying the recorded log')
+                        fail('R18.5', 'hit-replays', e.node, 'a cache hit is handed out (or, for the end marker of a recursion, acted upon) without replaying the recorded log')
                     if load_failed and not computed and not (recursion and k == 'return'):
                         fail('R18.2', 'failed-load-falls-through', e.node, 'after a failed load the path hands out a value without recomputing it')
             # a failed load must be survivable: the path may not end in that exception
@@ -250,6 +257,7 @@ def check_protocol(model, rep, key, compute_pred, recursion):
         ('R18.5', 'dump-without-compute', 'nothing is stored when the computation did not complete'),
         ('R18.5', 'hit-replays', 'a hit replays the log before the value is handed out'),
         ('R18.5', 'exception-propagates', 'exceptions of the computation propagate'),
+        ('R18.8', 'entry-file-kept', 'the entry file, which is the lock, is never removed or renamed'),
     ]
     for rule, stmt, text in obligations:
         bad = v.get((rule, stmt))
@@ -437,6 +445,7 @@ def run(model, rep, tier):
     rep.rule('R18.4', 'key completeness')
     rep.rule('R18.5', 'computation with caching disabled and log recorded; hits replay; exceptions propagate without a store')
     rep.rule('R18.6', 'recursion bookkeeping and entry layout agreement')
+    rep.rule('R18.8', 'the entry file is the lock object: no mechanism removes, renames or replaces it')
     rep.rule('R18.7', 'arguments of memoised solver entry points are hashable (sibling agreement of the method classes)')
     check_protocol(model, rep, 'cache:function.<locals>.wrapper', lambda c: src(c.func) == 'func', recursion=False)
     check_protocol(model, rep, 'cache:Recursion.__iter__', lambda c: src(c.func) == 'next' and c.args and src(c.args[0]) == 'resume', recursion=True)
